@@ -280,9 +280,9 @@ pub open spec fn all_ok(ss: Seq<Statement>, n: int) -> bool { forall|i: int| 0 <
 /// range) or a definition (well formed as any inner statement)
 pub open spec fn os_ok(s: Statement, n: int) -> bool {
     match s {
-        Statement::Enum { var, .. } => var < n,
-        Statement::Blob { var, .. } => var < n,
-        Statement::ExternalDefinition { var, .. } => var < n,
+        Statement::Enum { var, variants, .. } => var < n && forall|k: String| #[trigger] variants@.contains_key(k) ==> rt_ok(variants@[k].1, n),
+        Statement::Blob { var, fields, .. } => var < n && forall|k: String| #[trigger] fields@.contains_key(k) ==> rt_ok(fields@[k].1, n),
+        Statement::ExternalDefinition { var, ty, .. } => var < n && rt_ok(ty, n),
         Statement::Definition { .. } => s_ok(s, n),
         _ => false,
     }
